@@ -75,12 +75,12 @@ Proof.
   - cbn [deliver]. destruct d as [|e d']; [reflexivity|]. cbn [btc_execute].
     pose proof (btc_select_frame (e :: d') (st s) k Hn) as F.
     destruct (btc_select (st s) (e :: d')) as [s' r]. exact F.
-  - destruct (subset b (inflight s)); cbn [fst st]; [|reflexivity].
-    rewrite lookup_set_all, (kmem_false _ _ Hn). reflexivity.
-  - destruct (subset b (inflight s)); cbn [fst st]; [|reflexivity].
-    rewrite lookup_fail_all, (kmem_false _ _ Hn). reflexivity.
+  - destruct (subset (keys_of b) (inflight s)); cbn [fst st]; [|reflexivity].
+    rewrite lookup_set_all, (kmem_false _ _ (fun H => Hn (written_keys_sub _ _ H))). reflexivity.
+  - destruct (subset (keys_of b) (inflight s)); cbn [fst st]; [|reflexivity].
+    rewrite lookup_fail_all, (kmem_false _ _ (fun H => Hn (nofault_keys_sub _ _ H))). reflexivity.
   - reflexivity.
-  - cbn [fst st]. rewrite lookup_release_all, (kmem_false _ _ Hn). reflexivity.
+  - cbn [fst st]. rewrite lookup_release_all, (kmem_false _ _ (fun H => Hn (nofault_keys_sub _ _ H))). reflexivity.
 Qed.
 
 (* executed keys are read-only: no op changes a record that says executed *)
@@ -103,9 +103,9 @@ Proof.
     destruct (btc_select_sim U (e :: d') a b Hab Hk) as [A B].
     destruct (btc_select a (e :: d')) as [sa xa]. destruct (btc_select b (e :: d')) as [sb xb].
     cbn [fst snd st inflight] in *. subst xb. repeat split. exact B.
-  - destruct (subset bt inf); cbn [fst snd st inflight]; repeat split; try exact Hab.
-    intros k Hin. rewrite !lookup_set_all. destruct (kmem k bt); [reflexivity | apply Hab; exact Hin].
-  - destruct (subset bt inf); cbn [fst snd st inflight]; repeat split; try exact Hab.
+  - destruct (subset (keys_of bt) inf); cbn [fst snd st inflight]; repeat split; try exact Hab.
+    intros k Hin. rewrite !lookup_set_all. destruct (kmem k (written_keys bt)); [reflexivity | apply Hab; exact Hin].
+  - destruct (subset (keys_of bt) inf); cbn [fst snd st inflight]; repeat split; try exact Hab.
     intros k Hin. rewrite !lookup_fail_all, (Hab k Hin). reflexivity.
   - repeat split. exact Hab.
   - cbn [fst snd st inflight]. repeat split.
